@@ -17,8 +17,9 @@ import (
 type verifRW struct {
 	hdr    http.Header
 	code   int
-	body   rt.Buf
-	writes int
+	body    rt.Buf
+	writes  int
+	onWrite func(n int)
 }
 
 func (w *verifRW) Header() http.Header {
@@ -32,6 +33,9 @@ func (w *verifRW) Write(p []byte) (int, error) {
 		w.code = 200
 	}
 	w.writes++
+	if w.onWrite != nil {
+		w.onWrite(w.writes)
+	}
 	return w.body.Write(p)
 }
 func (w *verifRW) WriteHeader(code int) {
@@ -128,3 +132,130 @@ func must(err error) {
 }
 
 var _ = io.EOF
+
+// VerifC06StreamHandler: the whole POST /stream handler on a primary with a
+// three-position history: the replica announces its position in the request
+// body, an optional database filter, and disconnects after a few polls. The
+// recorded response is parsed back frame by frame.
+func VerifC06StreamHandler() {
+	rt.TimeoutsMayFire = false
+	k := 2
+	store, db, chain := litefs.VerifPrimaryChain(k)
+	primary := chain[k]
+	litefs.VerifSetStoreID(store, 0xB0B)
+	s := &Server{store: store}
+	sctx, shutdown := context.WithCancel(context.Background())
+	s.ctx = sctx
+	// the server shuts down at the first heartbeat tick, i.e. once the handler has gone idle
+	rt.OnTick = func() { shutdown() }
+	// a local commit lands while the handler is busy writing the initial replication set
+	lateCommit := rt.Choose("commit.while.streaming", 2) == 1
+	final := primary
+	// the replica's announcement
+	posMap := map[string]ltx.Pos{}
+	switch rt.Choose("client.state", 3) {
+	case 1:
+		posMap["db"] = chain[1] // on the chain, one behind
+	case 2:
+		posMap["gone"] = ltx.Pos{TXID: 7, PostApplyChecksum: ltx.ChecksumFlag | 9} // a database the primary does not have
+	}
+	var body bytes.Buffer
+	rt.Check(WritePosMapTo(&body, posMap) == nil, "harness: position map encoded")
+	filter := []string{"", "filter=db", "filter=other"}[rt.Choose("filter", 3)]
+	req := verifRequest("POST", "/stream", filter, "00000000000000AA", body.Bytes())
+	w := &verifRW{}
+	if lateCommit {
+		w.onWrite = func(n int) {
+			if n == 1 {
+				final = litefs.VerifCommitPage1(db)
+			}
+		}
+	}
+	rt.NoHang(20000, func() { s.serveHTTP(w, req) })
+	rt.OnTick = nil
+	before := litefs.VerifSnapshotState(store)
+	rt.Check(w.code == 200, "a well-formed stream request on the primary is accepted")
+
+	// parse what was sent
+	r := bytes.NewReader(w.body.B)
+	var order []string
+	var ltxFor []string
+	var hdrs []ltx.Header
+	var trls []ltx.Trailer
+	for r.Len() > 0 {
+		f, err := litefs.ReadStreamFrame(r)
+		rt.Check(err == nil, "stream output is a sequence of well-formed frames")
+		switch f := f.(type) {
+		case *litefs.LTXStreamFrame:
+			cr := chunk.NewReader(r)
+			dec := ltx.NewDecoder(cr)
+			rt.Check(dec.Verify() == nil, "every streamed transaction file passes its integrity check")
+			_, _ = io.Copy(io.Discard, cr)
+			order = append(order, "ltx")
+			ltxFor = append(ltxFor, f.Name)
+			hdrs, trls = append(hdrs, dec.Header()), append(trls, dec.Trailer())
+		case *litefs.ReadyStreamFrame:
+			order = append(order, "ready")
+		case *litefs.HeartbeatStreamFrame:
+			order = append(order, "heartbeat")
+		case *litefs.EndStreamFrame:
+			order = append(order, "end")
+		case *litefs.DropDBStreamFrame:
+			order = append(order, "dropdb")
+			rt.Check(f.Name == "gone", "only a database the primary does not have is announced as dropped")
+		case *litefs.HWMStreamFrame:
+			order = append(order, "hwm")
+		default:
+			order = append(order, "other")
+		}
+	}
+	rt.Check(len(order) > 0 && order[len(order)-1] == "end", "the stream ends with an end frame when the replica goes away")
+	readyAt := -1
+	for i, o := range order {
+		if o == "ready" && readyAt < 0 {
+			readyAt = i
+		}
+	}
+	rt.Check(readyAt >= 0, "a ready frame is sent")
+	nltx := 0
+	for i, o := range order {
+		if o == "ltx" {
+			nltx++
+			rt.Check(i < readyAt || lateCommit, "the initial replication set is complete before the ready frame")
+		}
+	}
+	if filter == "filter=other" {
+		rt.Check(nltx == 0, "a filtered-out database is not sent at all")
+	} else {
+		rt.Check(nltx >= 1, "the data the replica lacks is sent")
+		last := len(hdrs) - 1
+		rt.Check(hdrs[last].MaxTXID == final.TXID && trls[last].PostApplyChecksum == final.PostApplyChecksum, "C01: by the time the handler goes idle the replica has been sent everything up to the primary's current position, including a commit that landed while the handler was busy")
+	}
+	for i := range hdrs {
+		rt.Check(ltxFor[i] == "db", "transaction data is labelled with its database")
+	}
+	if nltx == 1 {
+		if _, onChain := posMap["db"]; onChain {
+			rt.Check(!hdrs[0].IsSnapshot() && hdrs[0].MinTXID == chain[1].TXID+1 && hdrs[0].PreApplyChecksum == chain[1].PostApplyChecksum, "a replica on the chain gets the next transaction, extending exactly its position")
+		} else {
+			rt.Check(hdrs[0].IsSnapshot(), "a replica without the database gets a snapshot")
+		}
+		if !lateCommit {
+			rt.Check(hdrs[0].MaxTXID == primary.TXID && trls[0].PostApplyChecksum == primary.PostApplyChecksum, "and ends at the primary's position")
+		}
+	}
+	if _, has := posMap["gone"]; has && filter == "" {
+		found := false
+		for _, o := range order {
+			if o == "dropdb" {
+				found = true
+			}
+		}
+		rt.Check(found, "a database only the replica has is reported back")
+	}
+	_ = before
+	rt.Check(store.SubscriberByNodeID(0xAA) == nil, "C20: no subscriber is left behind once the stream has ended")
+	rt.Check(litefs.VerifSnapshotState(store).Unlocked, "C20: no lock is left behind")
+	_ = db
+	rt.Reach("c06.stream.handler")
+}
